@@ -184,12 +184,17 @@ def tlapm(module, timeout=1800, threads=8):
     must be proved.  The modules they are about are taken from spec/ itself (-I ..)."""
     cache = "%s/tlacache_%d" % (OUT, os.getpid())
     t0 = time.time()
-    try:
-        p = subprocess.run(["tlapm", "-I", "..", "--cache-dir", cache, "--threads", str(threads), module],
-                           cwd=SPEC + "/proofs", stdout=subprocess.PIPE, stderr=subprocess.STDOUT, text=True, timeout=timeout)
-    except subprocess.TimeoutExpired:
-        shutil.rmtree(cache, ignore_errors=True)
-        raise ToolError("tlapm timed out: %s" % module)
+    # the back-end time limits are wall-clock: on a saturated machine an obligation can run out of time, so a
+    # failed attempt is repeated once with all limits stretched (proved obligations are kept in the cache)
+    for stretch in ("1", "6"):
+        try:
+            p = subprocess.run(["tlapm", "-I", "..", "--cache-dir", cache, "--threads", str(threads), "--stretch", stretch, module],
+                               cwd=SPEC + "/proofs", stdout=subprocess.PIPE, stderr=subprocess.STDOUT, text=True, timeout=timeout)
+        except subprocess.TimeoutExpired:
+            shutil.rmtree(cache, ignore_errors=True)
+            raise ToolError("tlapm timed out: %s" % module)
+        if re.search(r'All (\d+) obligations? proved', p.stdout):
+            break
     shutil.rmtree(cache, ignore_errors=True)
     m = re.search(r'All (\d+) obligations? proved', p.stdout)
     if not m:
